@@ -295,6 +295,8 @@ type cityGen struct {
 	inBase       bool
 	// the compact builder does not store collection features at all
 	noBaseCollections bool
+	// areas may mix path-based and explicit polygons (never for compact)
+	mixedAreas bool
 	// the generator's belief of what exists (last successfully added spec)
 	specs map[b6.FeatureID]*fspec
 }
@@ -421,7 +423,7 @@ func (g *cityGen) areaSpec(id b6.FeatureID) *fspec {
 	closed := g.closedPathIDs()
 	s := &fspec{ID: id}
 	n := 1
-	if rc.Pct(20) {
+	if rc.Pct(25) {
 		n = 2
 	}
 	// All polygons of one area use the same representation (all by path id
@@ -431,7 +433,14 @@ func (g *cityGen) areaSpec(id b6.FeatureID) *fspec {
 	// DESIGN.md "observations outside the claimed properties".
 	byPath := len(closed) > 0 && !rc.Pct(25)
 	for i := 0; i < n; i++ {
-		if byPath {
+		// outside base cities (features added to mutable worlds or offered to
+		// the in-memory builder) polygons of one area may mix representations
+		mixedHere := g.mixedAreas && n > 1 && rc.Pct(50)
+		usePath := byPath
+		if mixedHere {
+			usePath = len(closed) > 0 && i%2 == rc.Draw(2)
+		}
+		if usePath {
 			s.AreaPaths = append(s.AreaPaths, []b6.FeatureID{closed[rc.Draw(len(closed))]})
 			s.AreaRings = append(s.AreaRings, nil)
 		} else {
